@@ -294,6 +294,7 @@ def run(prog, chk):
     read_all_table(prog, chk, "C19.l")
     extension_cut_needs_dot(prog, chk, "C19.m")
     directory_test_follows_links(prog, chk, "C19.n")
+    transfer_loops_advance(prog, chk, "C19.o")
 
 
 def copy_destination_flags(prog, chk, rid):
@@ -882,3 +883,55 @@ def directory_test_follows_links(prog, chk, rid):
                 "Directory::create(\"link/sub\") fails (and create(\"link\") returns false although the directory exists afterwards)" % f.nodes[nofollow[0]]["callee"], evals=len(st))
     else:
         chk.ok(rid, f, "the directory test follows symbolic links", f.where(st[0]), "status call: %s" % f.nodes[st[0]]["callee"], evals=len(st))
+
+
+def transfer_loops_advance(prog, chk, rid):
+    """a loop that repeats read()/write() until a byte count is used up has to move through the buffer as it goes: where the remaining
+    length is reduced by the transferred count, the buffer pointer advances by the same count before the next call - otherwise the
+    start of the data is sent again (or overwritten) after a short transfer while the function still reports success"""
+    chk.rule(rid, "PAIRF: in File.cpp, where a read/write call inside a loop takes (pointer, length) and the loop reduces that length by the "
+                  "transferred count, every path from the reduction back to the call advances the pointer by the same count", floor=0)
+    n = 0
+    for f in sorted([f for f in prog.functions.values() if f.file.endswith("src/File.cpp") and f.blocks], key=lambda g: g.sig):
+        for c in q.calls(f):
+            cal = f.nodes[c].get("callee") or ""
+            if cal not in ("write", "read", "File::write", "File::read", "pwrite", "pread"):
+                continue
+            lb = C.loop_blocks(f, c)
+            if not lb:
+                continue
+            args = q.call_args(f, c)
+            if len(args) < 2:
+                continue
+            pa, la = (args[-2], args[-1]) if cal.startswith("File::") else (args[1], args[2]) if len(args) >= 3 else (None, None)
+            if pa is None:
+                continue
+            P, L = q.no_casts(f.r(pa)), q.no_casts(f.r(la))
+            if not re.fullmatch(r"\w+", L):
+                continue
+            inloop = lambda s_: (f.node_pos(s_.node) or (None,))[0] in lb
+            dec = [s_ for s_ in q.stores(f) if inloop(s_) and q.no_casts(f.r(s_.lhs)) == L and s_.rhs is not None and
+                   (s_.op == "-=" or (s_.op == "=" and re.match(r"^\(?%s - " % re.escape(L), q.no_casts(f.r(s_.rhs)))))]
+            if not dec:
+                continue
+            n += 1
+            adv = [s_ for s_ in q.stores(f) if inloop(s_) and q.no_casts(f.r(s_.lhs)) == P and s_.rhs is not None and
+                   (s_.op == "+=" or (s_.op == "=" and re.match(r"^\(?%s \+ " % re.escape(P), q.no_casts(f.r(s_.rhs)))))]
+            # the pointer argument may itself be computed from a moving offset (`base + done`): then the offset is what advances
+            m_ = re.fullmatch(r"\(?(\w+) \+ (\w+)\)?", P)
+            if not adv and m_:
+                adv = [s_ for s_ in q.stores(f) if inloop(s_) and q.no_casts(f.r(s_.lhs)) in (m_.group(1), m_.group(2)) and s_.op in ("+=", "=")]
+            bad = None
+            for d_ in dec:
+                if f.node_pos(d_.node) is None or f.node_pos(c) is None:
+                    continue
+                if f.find_path(f.node_pos(d_.node), {f.node_pos(c)}, avoid=q.pos_of(f, [a_.node for a_ in adv])) is not None:
+                    bad = d_
+            if bad is not None:
+                chk.bad(rid, f, "transfer-loop-does-not-advance:" + P, f.where(c),
+                        "the loop reduces `%s` by the count `%s` transferred (`%s`) and calls `%s` again without moving `%s` forward: after a short "
+                        "transfer the beginning of the data is transferred a second time and the function still reports success" % (
+                            L, cal, q.no_casts(f.r(bad.node))[:40], q.no_casts(f.r(c))[:40], P), evals=len(dec) + len(adv) + 1)
+            else:
+                chk.ok(rid, f, "transfer loop moves `%s` and `%s` together" % (P, L), f.where(c), "every path from the length update to the next call passes the pointer update", evals=len(dec) + len(adv) + 1)
+    chk.ok(rid, "File.cpp", "%d transfer loop(s) over a shrinking length found" % n, "src/File.cpp", "loop scan", nontrivial=False)
